@@ -13,8 +13,8 @@ and `..__clear_cache` is one atomic section.  Graph objects are private to the c
 thread only passes graphs it allocated itself (`live g = some (t, c)`: thread t owns the live graph with id g).  Ids are
 recyclable across threads: once a graph is dropped any thread's `alloc` may get its id.
 One scheduler step = one atomic section of the chosen thread; a schedule is any list of thread ids.
-Not modelled: a query nested in `compute` (the recursion inside `_impl`; it is on the same thread and the same graph, its
-sections are further steps of that thread) is flattened into consecutive queries.
+A query nested in `compute` (the recursion inside `_impl`: same thread, same graph) is written with the section
+operations: the outer query becomes `lookup … store` around the sections of the nested ones.
 Core Lean only.
 -/
 namespace ESV.Cache
@@ -97,6 +97,20 @@ def act (rc : C → K → A → R) (s : MSt K A C R) (t : Tid) : Res K A C R :=
         match (s.memo.lookup g k).2 with
         | some r => ⟨s.live, (s.memo.lookup g k).1, ⟨.idle, rest⟩, .val t g k a r c true⟩
         | none => ⟨s.live, (s.memo.lookup g k).1, ⟨.looked g k a, rest⟩, .missed t⟩
+    | .lookup g k a :: rest =>          -- a lookup section on its own (nested queries): one atomic section
+      match owned s.live t g with
+      | none => ⟨s.live, s.memo, ⟨.idle, rest⟩, .illFormed t⟩
+      | some c =>
+        match (s.memo.lookup g k).2 with
+        | some r => ⟨s.live, (s.memo.lookup g k).1, ⟨.idle, rest⟩, .val t g k a r c true⟩
+        | none => ⟨s.live, (s.memo.lookup g k).1, ⟨.idle, rest⟩, .missed t⟩
+    | .store g k a :: rest =>           -- a store section on its own: the value is computed from the graph as it is now
+      match owned s.live t g with
+      | none => ⟨s.live, s.memo, ⟨.idle, rest⟩, .illFormed t⟩
+      | some c =>
+        match s.memo.store g k (rc c k a) with
+        | none => ⟨s.live, s.memo, ⟨.idle, rest⟩, .keyError t g k⟩
+        | some m2 => ⟨s.live, m2, ⟨.idle, rest⟩, .val t g k a (rc c k a) c false⟩
 
 def stepT (rc : C → K → A → R) (s : MSt K A C R) (t : Tid) : MSt K A C R × Ev K A C R :=
   (⟨(act rc s t).live, (act rc s t).memo, upd s.th t (act rc s t).me⟩, (act rc s t).ev)
